@@ -267,7 +267,7 @@ package invocation
 //@   assumes result1 == nil ==> result0 == sealedNodei(t, privKey, old(signings(privKey)))
 //@   assigns signings(privKey)
 //@   ensures [C08,C18] once: result1 == nil ==> signings(privKey) == old(signings(privKey)) + 1
-//@   ensures result1 == nil ==> result0 != nil
+//@   ensures nonnil: result1 == nil ==> result0 != nil
 //@   ensures [C07] model: result1 == nil ==> sealedModel(result0) is *tokenPayloadModel && sealedModel(result0).(*tokenPayloadModel) != nil && modelOfi(sealedModel(result0).(*tokenPayloadModel), t)
 //@ pure func modelOfi(m *tokenPayloadModel, t *Token) bool =
 //@     m.Iss == strOf(t.issuer) && m.Sub == strOf(t.subject) && (t.audience == did.Undef ? m.Aud == nil : (m.Aud != nil && *m.Aud == strOf(t.audience)))
